@@ -42,6 +42,12 @@ func (n *Node) SetPageOpHook(fn func(db *litefs.DB, op string, pgno uint32) erro
 	pageOpMu.Unlock()
 }
 
+func pageOpHookOf(n *Node) func(db *litefs.DB, op string, pgno uint32) error {
+	pageOpMu.Lock()
+	defer pageOpMu.Unlock()
+	return pageOpHooks[n.Store]
+}
+
 // nodeExit is the panic sentinel used when LiteFS calls Store.Exit on a
 // harness goroutine (the real process would stop executing there).
 type nodeExit struct{ code int }
